@@ -41,6 +41,40 @@ def _consts(t):
 
 # ======================================================================
 # C15
+def _fold_num(t, params, atoms):
+    """numeric value of an arithmetic / comparison term with the given parameter values and atom values; None if not foldable"""
+    if t in atoms:
+        return atoms[t]
+    h = t[0]
+    if h == "const":
+        return t[1] if isinstance(t[1], (int, float, bool)) else None
+    if h in ("param", "arg", "free"):
+        return params.get(t[1])
+    if h == "binop":
+        a, b = _fold_num(t[2], params, atoms), _fold_num(t[3], params, atoms)
+        if a is None or b is None:
+            return None
+        try:
+            return {"Add": lambda: a + b, "Sub": lambda: a - b, "Mult": lambda: a * b, "Pow": lambda: a ** b, "FloorDiv": lambda: a // b,
+                    "LShift": lambda: a << b, "Mod": lambda: a % b}[t[1]]()
+        except Exception:
+            return None
+    if h == "unop" and len(t) == 3:
+        a = _fold_num(t[2], params, atoms)
+        return None if a is None else (-a if t[1] == "USub" else None)
+    if h == "cmp":
+        a, b = _fold_num(t[2], params, atoms), _fold_num(t[3], params, atoms)
+        if a is None or b is None:
+            return None
+        return {"Gt": a > b, "GtE": a >= b, "Lt": a < b, "LtE": a <= b, "Eq": a == b, "NotEq": a != b}.get(t[1])
+    if h == "not":
+        a = _fold_num(t[1], params, atoms)
+        return None if a is None else (not a)
+    if h == "call" and t[1] == ("builtin", "int") and len(t[2]) == 1:
+        return _fold_num(t[2][0], params, atoms)
+    return None
+
+
 def rule_fr1(ctx: Ctx):
     """line framing only (the CSV file reader is file.read -> decode -> line.unframe -> csv.load)"""
     return rule_framing(ctx)[0]
@@ -210,6 +244,33 @@ def rule_framing(ctx: Ctx):
                     any(x[0] == "param" and x[1] == "byteorder" for x in subterms(bo[0]))
         r2.ob(ok, lambda: mk_finding("FR-2", spec, None, {}, p,
                                      "frame must emit len(item).to_bytes(prefix_size, byteorder) followed by the item; it emits %s" % (show(ems[0].eff.arg) if ems else "nothing"), extra="frame"))
+    # the size guard of frame may only reject items whose length does not fit in prefix_size bytes: for every prefix size the
+    # largest representable length 2**(8*prefix_size) - 1 must pass (the bound is folded numerically for prefix sizes 1, 2, 4, 8)
+    for p in ctx.paths(spec, None, {}):
+        if not _normal(p):
+            continue
+        errs = [e for e in emissions(p) if e.method == "on_error"]
+        if not errs:
+            continue
+        LEN = ("call", ("builtin", "len"), (EV,))
+        for e in p.trace:
+            if e.k != "decision" or p.trace.index(e) > p.trace.index(errs[0].eff):
+                continue
+            from .seq import _no_epoch
+            tt = _no_epoch(e.test)
+            if not any(x == LEN for x in subterms(tt)):
+                continue
+            bad_for = []
+            for ps in (1, 2, 4, 8):
+                maxlen = 2 ** (8 * ps) - 1
+                v = _fold_num(tt, {"prefix_size": ps}, {LEN: maxlen})
+                if v is None:
+                    raise AnalysisError("length_prefix.frame: the size guard %s cannot be folded for prefix_size=%d" % (show(e.test), ps))
+                if bool(v) == e.outcome:
+                    bad_for.append((ps, maxlen))
+            r2.ob(not bad_for, lambda e=e, bad_for=bad_for, p=p: mk_finding(
+                "FR-2", spec, None, {}, p, "the size guard '%s' (taken %s) rejects an item whose length still fits in the prefix: %s; such an item is "
+                "representable and must be framed" % (show(e.test), e.outcome, ", ".join("prefix_size=%d, %d bytes" % x for x in bad_for)), node=e.node, extra="guard"))
     site, spec = _h(ctx, P, "unframe._unframe.on_subscribe")
     r2.instances += 1
     rc.instances += 1
